@@ -1,20 +1,137 @@
 (* C16 -- property theorems only.  Proofs live in C16/Proofs*.v. *)
 From Coq Require Import NArith List.
-From DV Require Import Base.Outcome Base.Bytes C16.Gen C16.Model C16.ProofsNeg.
+From DV Require Import Base.Outcome Base.Bytes C16.Gen C16.Model C16.ProofsNeg C16.ProofsTrunc
+  C16.ProofsFrame C16.ProofsTop.
 Import ListNotations.
 Local Open Scope N_scope.
 
+(* ---- negotiation ---- *)
 Theorem C16_negotiate_spec : forall c h,
   negotiate c (Some h) = Ok (N.min (N.max c 512) (N.max h 512)) /\
   negotiate c None = Ok (N.max c 512).
-Proof. intros; split; [apply negotiate_spec|apply negotiate_spec_none]. Qed.
+Proof. exact negotiate_closed_form. Qed.
 Print Assumptions C16_negotiate_spec.
 
 Theorem C16_negotiate_no_panic : forall c h, no_panic (negotiate c h).
 Proof. exact negotiate_no_panic. Qed.
 Print Assumptions C16_negotiate_no_panic.
 
+Theorem C16_limit_with_edns : forall c hint, hint_ok hint ->
+  udp_limit (Some c) hint = Ok (text_limit (Some c) hint).
+Proof. exact top_limit_with_edns. Qed.
+Print Assumptions C16_limit_with_edns.
+
+Theorem C16_limit_is_property_text_once_fixed : trunc_no_opt_is_min = true ->
+  forall client hint, hint_ok hint -> udp_limit client hint = Ok (text_limit client hint).
+Proof. exact top_limit_is_text. Qed.
+Print Assumptions C16_limit_is_property_text_once_fixed.
+
+Theorem C16_limit_no_edns_refuted : trunc_no_opt_is_min = false ->
+  exists h, cfg_min <= h <= cfg_max /\ udp_limit None (Some h) = Ok h /\ text_limit None (Some h) < h.
+Proof. exact top_limit_no_edns_refuted. Qed.
+Print Assumptions C16_limit_no_edns_refuted.
+
+Theorem C16_small_hint_refuted :
+  exists c h, udp_limit (Some c) (Some h) = Ok 512 /\ text_limit (Some c) (Some h) < 512.
+Proof. exact limit_small_hint_refuted. Qed.
+Print Assumptions C16_small_hint_refuted.
+
+Theorem C16_cfg_hint_range : forall v h, cfg_hint v = Some h -> cfg_min <= h <= cfg_max.
+Proof. exact cfg_hint_range. Qed.
+Print Assumptions C16_cfg_hint_range.
+
+(* ---- push limit ---- *)
 Theorem C16_push_limit_strict : forall l pos add p,
   push_limited (Some l) pos add = Ok p <-> p = pos + add /\ pos + add < l /\ pos + add <= 65535.
 Proof. exact push_limited_ok. Qed.
 Print Assumptions C16_push_limit_strict.
+
+Theorem C16_push_script_bound : forall l adds pos, pos < l ->
+  snd (push_script (Some l) pos adds) < l.
+Proof. exact top_push_script_bound. Qed.
+Print Assumptions C16_push_script_bound.
+
+(* ---- truncation and the UDP size bound ---- *)
+Theorem C16_udp_size_cases : forall rq hint m, mlen m <= 65535 ->
+  (mlen m <= tmax rq hint /\ mlen (post rq hint m) = mlen m /\
+   tc_set (m_b2 (post rq hint m)) = tc_set (m_b2 m)) \/
+  (tmax rq hint < mlen m /\ mlen (post rq hint m) = mlen (trunc_form m) /\
+   tc_set (m_b2 (post rq hint m)) = true /\
+   m_an (post rq hint m) = [] /\ m_ns (post rq hint m) = [] /\ m_ar (post rq hint m) = opt_list (m_ar m)).
+Proof. exact top_udp_size_cases. Qed.
+Print Assumptions C16_udp_size_cases.
+
+Theorem C16_udp_size_bound : forall rq hint m, mlen m <= 65535 ->
+  mlen (trunc_form m) <= tmax rq hint -> mlen (post rq hint m) <= tmax rq hint.
+Proof. exact top_udp_size_bound. Qed.
+Print Assumptions C16_udp_size_bound.
+
+Theorem C16_udp_size_bound_no_opt : forall rq cfg m r q,
+  rq_client rq = None -> m_qs m = [q] -> wf_q q -> hint_ok cfg -> mlen m <= 65535 ->
+  udp_response rq cfg m = Ok r -> mlen r <= trunc_max false cfg.
+Proof. exact top_udp_size_bound_no_opt. Qed.
+Print Assumptions C16_udp_size_bound_no_opt.
+
+Theorem C16_udp_size_bound_refuted :
+  exists rq cfg m r, mlen m <= 65535 /\ udp_response rq cfg m = Ok r /\
+    udp_limit (rq_client rq) cfg = Ok 512 /\ tc_set (m_b2 r) = true /\ 512 < mlen r.
+Proof. exact udp_size_bound_refuted. Qed.
+Print Assumptions C16_udp_size_bound_refuted.
+
+Theorem C16_tc_iff : forall rq hint m, mlen m <= 65535 ->
+  tc_set (m_b2 (post rq hint m)) = true <-> (tmax rq hint < mlen m \/ tc_set (m_b2 m) = true).
+Proof. exact top_tc_iff. Qed.
+Print Assumptions C16_tc_iff.
+
+Theorem C16_dropped_implies_tc : forall rq hint m, mlen m <= 65535 ->
+  (m_an (post rq hint m) <> m_an m \/ m_ns (post rq hint m) <> m_ns m \/ m_ar (post rq hint m) <> m_ar m) ->
+  tc_set (m_b2 (post rq hint m)) = true.
+Proof. exact top_dropped_implies_tc. Qed.
+Print Assumptions C16_dropped_implies_tc.
+
+Theorem C16_truncated_wellformed : forall rq hint m,
+  mlen m <= 65535 -> rq_id rq < 65536 -> wf_resp m -> tmax rq hint < mlen m ->
+  tc_set (m_b2 (post rq hint m)) = true /\ m_an (post rq hint m) = [] /\ m_ns (post rq hint m) = [] /\
+  m_ar (post rq hint m) = opt_list (m_ar m) /\ m_qs (post rq hint m) = m_qs m /\
+  parse_min (wire_msg (post rq hint m)) = Some (post rq hint m).
+Proof. exact top_truncated_wellformed. Qed.
+Print Assumptions C16_truncated_wellformed.
+
+Theorem C16_id_question_echoed : forall rq cfg m r, mlen m <= 65535 ->
+  udp_response rq cfg m = Ok r -> m_id r = rq_id rq /\ m_qs r = m_qs m.
+Proof. exact top_id_question_echoed. Qed.
+Print Assumptions C16_id_question_echoed.
+
+Theorem C16_udp_response_total : forall rq cfg m, exists r, udp_response rq cfg m = Ok r.
+Proof. exact top_udp_response_total. Qed.
+Print Assumptions C16_udp_response_total.
+
+(* ---- stream framing ---- *)
+Theorem C16_framing_exact : forall m f, frame_out m = Ok f ->
+  exists h l, f = h :: l :: m /\ h < 256 /\ l < 256 /\ of_be16 h l = len m /\ len f = len m + 2.
+Proof. exact framing_exact. Qed.
+Print Assumptions C16_framing_exact.
+
+Theorem C16_framing_roundtrip : forall ms, Forall (fun m => len m <= 65535) ms ->
+  Forall (fun m => frame_out m = Ok (frame m)) ms /\
+  split_frames (S (length ms)) (concat (map frame ms)) = (ms, []).
+Proof. exact framing_roundtrip. Qed.
+Print Assumptions C16_framing_roundtrip.
+
+Theorem C16_framing_chunk_independent : forall c1 c2, concat c1 = concat c2 ->
+  conn_chunks conn_init c1 = conn_chunks conn_init c2.
+Proof. exact framing_chunk_independent. Qed.
+Print Assumptions C16_framing_chunk_independent.
+
+Theorem C16_framing_is_split : forall chunks,
+  snd (conn_chunks conn_init chunks) =
+  events_of (fst (split_frames (S (length (concat chunks))) (concat chunks))).
+Proof. exact framing_is_split. Qed.
+Print Assumptions C16_framing_is_split.
+
+Theorem C16_hostile_input_total : forall chunks,
+  exists st ev, conn_chunks conn_init chunks = (st, ev) /\ Forall ok_event ev /\
+    (forall pre post, ev = pre ++ EvDisconnect :: post -> post = []) /\
+    (c_open st = false <-> In EvDisconnect ev).
+Proof. exact hostile_input_total. Qed.
+Print Assumptions C16_hostile_input_total.
